@@ -88,6 +88,21 @@ add({"name": "safe_unsigned_multiply_ul", "file": "dfs/dfs.h",
                (r"std::numeric_limits<T>::max\(\)", "ULONG_MAX", 1),
                (r'throw std::range_error\("[^"]*"\);', "{ VERIF_THROW(Other, 0); return 0; }", 1)],
      "dropped": ["static_assert on the template parameter"]})
+# OsFile::read (C10 i: the uncompressed reference path; C07: short reads): exactly the bytes that exist
+add({"name": "OsFile_read", "file": "dfs/img_fileio.cc", "anchor": r"std::vector<byte> OsFile::read\(unsigned long pos, unsigned long len\)",
+     "sig": "static struct rvec OsFile_read(unsigned long pos, unsigned long len)",
+     "rules": [(r"std::cerr <<(?:[^;\"]|\"(?:[^\"\\]|\\.)*\")*;", "g_diag++;  /* diagnostic text dropped */", ">=1"),
+               (r"if \(!f_\)", "if (ifs_not(&F))", 1),
+               (r"std::vector<byte> buf;", "struct rvec buf; buf.n = 0;", 1),
+               (r"!f_\.seekg\(pos, f_\.beg\)", "!ifs_seekg(&F, pos)", 1),
+               (r"f_\.clear\(\);", "ifs_clear(&F);", ">=1"),
+               (r"f_\.read\(reinterpret_cast<char\*>\(buf\.data\(\)\), len\);", "ifs_read(&F, buf.n, len);", 1),
+               (r"buf\.resize\(((?:[^();]|\([^()]*\))*)\);", r"buf.n = (\1);", ">=2"),
+               (r"f_\.gcount\(\)", "F.gcount", ">=1"), (r"!f_\.good\(\)", "!ifs_good(&F)", 1),
+               (r"\bf_ \?", "(!ifs_not(&F)) ?", ">=0"),
+               (r"throw DFS::FileIOError\(file_name_, \w+\);", "{ VERIF_THROW(OsError, 0); return buf; }", ">=1"),
+               (r"\berrno\b", "g_errno", ">=1")],
+     "dropped": ["diagnostic texts", "the bytes themselves (istream::read delivers them: model)"]})
 add({"name": "FileView_read_block", "file": "dfs/img_fileio.cc",
      "anchor": r"std::optional<DFS::SectorBuffer> FileView::read_block\(unsigned long sector\)",
      "sig": "static opt_SectorBuffer FileView_read_block(struct FileView *self, unsigned long sector)",
@@ -623,7 +638,9 @@ add({"name": "connect_drives", "file": "dfs/storage.cc",
                (r"for \(auto d : drives\)(\s*\{\s*connect_internal)", r"for (size_t di = 0; di < drives_n; ++di) PHYS_CONNECT_CONTRACT\1", 1),
                (r"for \(auto d : drives\)(\s*\{\s*for \(; n < limit)", r"for (size_t di = 0; di < drives_n; ++di) FIRST_OUTER_CONTRACT\1", 1),
                (r"connect_internal\(n, d\);", "connect_internal_model(n, di);", 2),
-               (r"n = n\.next\(\)\.next\(\);", "n = SurfaceSelector_next(n); if (g_exc) return false; n = SurfaceSelector_next(n); if (g_exc) return false;  /* exception propagation */", 1),
+               (r"n = n\.next\(\)\.next\(\);", "n = SurfaceSelector_next(n); if (g_exc) return false; n = SurfaceSelector_next(n); if (g_exc) return false;  /* exception propagation */", "=0or1"),
+               (r"n = n\.opposite_surface\(\);", "n = SurfaceSelector_opposite_surface(n);", ">=0"),
+               (r"n = n\.next\(\);(?!\s*\))", "n = SurfaceSelector_next(n); if (g_exc) return false;", ">=0"),
                (r"DFS::drive_number n\((.*?)\);", r"surface_t n = (surface_t)(\1);", 1), (r"static_cast<unsigned int>\(", "(unsigned int)(", ">=0"), (r"drives_\.size\(\)", "g_drives_size", ">=0"),
                (r"for \(; n < limit; n = n\.next\(\)\)", "for (; n < limit; n = SurfaceSelector_next(n)) FIRST_INNER_CONTRACT", 1),
                (r"is_drive_connected\(n\)", "is_drive_connected_model(n)", 1)],
@@ -849,6 +866,28 @@ add({"name": "get_sector_map", "file": "dfs/dfs_filesystem.cc", "anchor": r"std:
                (r"auto disc_catalogue = internal::OpusDiscCatalogue::get_catalogue\(media_, geometry\(\)\);\s*disc_catalogue\.map_sectors\(result\.get\(\)\);", "opus_disc_catalogue_map_model();", 1),
                (r"return result;", "return;", 1)],
      "dropped": ["the SectorMap object (recording model)"]})
+
+# Catalog::find_catalog_entry_for_name (C15/C01: a Watford disc has two catalogue fragments; a file in either is found)
+add({"name": "catalog_find_entry", "file": "dfs/dfs_catalog.cc", "anchor": r"std::optional<CatalogEntry> Catalog::find_catalog_entry_for_name\(const ParsedFileName& name\) const",
+     "sig": "static struct opt_entry_ catalog_find_entry(size_t fragments_n)",
+     "rules": [(r"for \(const auto& frag : fragments_\)", "for (size_t fi_ = 0; fi_ < fragments_n; ++fi_) CATFIND_LOOP_CONTRACT", 1),
+               (r"auto result = frag\.find_catalog_entry_for_name\(name\);", "struct opt_entry_ result = fragment_find_model(fi_);", 1),
+               (r"if \(result\)", "if (result.has)", 1),
+               (r"frag\.position_of_last_catalog_entry\(\)", "h_frag_last[fi_ & 3]", ">=0"),
+               (r"return std::nullopt;", "{ struct opt_entry_ none_; none_.has = 0; none_.val = 0; return none_; }", 1)]})
+
+# cmd_cat.cc title_and_cycle (C02: `cat` shows the title and the cycle number)
+add({"name": "title_and_cycle", "file": "dfs/cmd_cat.cc", "anchor": r"std::string title_and_cycle\(DFS::UiStyle ui,\s*const std::string& title,\s*std::optional<int> cycle\)",
+     "sig": "static void title_and_cycle(int ui, struct cstr title, struct opt_int_ cycle)",
+     "pre": "#define os (&os_obj)\n", "post": "#undef os\n",
+     "rules": [(r"DFS::UiStyle::(\w+)", r"UiStyle_\1", ">=1"),
+               (r"std::ostringstream os;", "os_init(&os_obj);", 1),
+               (r"title\.empty\(\)", "(title.n == 0)", ">=0"),
+               (r"<<\s*title\b", "<< CSTR(title)", 1),
+               (r"\(\*cycle\)|\*cycle", "cycle.val", ">=1"),
+               (r"if \(cycle\b", "if (cycle.has", 1),
+               ("OSTREAM_CHAIN", "os", ">=2"),
+               (r"return os\.str\(\);", "return;  /* the assembled string is the sequence of events */", 1)]})
 
 # ---- commands.cc (C01: name lookup -> mount -> body): body_command, the shared back end of type / list / dump -----------------
 add({"name": "body_command", "file": "dfs/commands.cc",
@@ -1189,6 +1228,11 @@ add({"name": "opus_volume_table", "file": "dfs/opus_cat.cc",
                (r"(for \(int i = 0; \(label=labels\[i\]\) != '\\0'; \+\+i\))", r"\1 OPUS_TABLE_LOOP_CONTRACT", 1)],
      "dropped": ["diagnostic text"]})
 
+# OpusDiscCatalogue::map_sectors (C14: sector-map / extract-unused): the disc catalogue is sector 16, sector 17 is reserved
+add({"name": "opus_disc_map_sectors", "file": "dfs/opus_cat.cc", "anchor": r"void OpusDiscCatalogue::map_sectors\(DFS::SectorMap\* out\) const",
+     "sig": "static void opus_disc_map_sectors(const struct OpusCatM *self)", "pre": OC_PRE, "post": OC_POST,
+     "rules": [(r"out->add_other\(([^,;]*), \"[^\"]*\"\);", r"add_other_model(\1);", ">=1")],
+     "dropped": ["the label texts"]})
 # ---- opus_cat.cc (C17): the extent loop of the OpusDiscCatalogue constructor (after std::sort by start sector) -----------
 add({"name": "opus_volume_extents", "file": "dfs/opus_cat.cc",
      "anchor": r"unsigned long next_sector = total_disc_sectors_;", "region_end": r"\n    \}\s*\n\s*const std::vector<OpusDiscCatalogue::VolumeLocation>",
